@@ -670,8 +670,151 @@ def rule_epfs_language(model):
     return r
 
 
+class _StripS(BaseState):
+    def __init__(self, env=None):
+        self.env = dict(env or {})
+
+    def key(self):
+        return tuple(sorted(self.env.items()))
+
+    def copy(self):
+        n = _StripS(self.env)
+        n.trace = self.trace
+        return n
+
+
+class _StripDomain(Domain):
+    """Is the argument text a tag reader works with (compares with the
+    start tag's arguments, returns) free of surrounding blanks?  Values:
+    'S' stripped, 'R' raw."""
+
+    def __init__(self, fi, group_tag):
+        self.fi = fi
+        self.group_tag = group_tag     # tag of match.group('args')
+        self.uses = []                 # (node, what, tag)
+
+    def ev(self, e, st):
+        if isinstance(e, ast.Constant):
+            return 'S'
+        if isinstance(e, ast.Name):
+            return st.env.get(e.id, 'R')
+        if isinstance(e, ast.Call) and isinstance(e.func, ast.Attribute) \
+                and e.func.attr == 'strip' and not e.args:
+            return 'S'
+        if isinstance(e, ast.BoolOp):
+            # a and a.strip() or '':  the value is one of the operands;
+            # the guard operand of an `and` is only returned when false
+            vals = list(e.values)
+            if isinstance(e.op, ast.And):
+                vals = vals[1:] or vals
+            tags = {self.ev(v, st) for v in vals}
+            return 'S' if tags == {'S'} else 'R'
+        if isinstance(e, ast.IfExp):
+            tags = {self.ev(e.body, st), self.ev(e.orelse, st)}
+            return 'S' if tags == {'S'} else 'R'
+        if isinstance(e, ast.JoinedStr):
+            vals = [v.value for v in e.values
+                    if isinstance(v, ast.FormattedValue)]
+            edge = [vals[0], vals[-1]] if vals else []
+            return 'S' if all(self.ev(v, st) == 'S' for v in edge) else 'R'
+        if isinstance(e, ast.BinOp) and isinstance(e.op, ast.Add):
+            return 'S' if self.ev(e.left, st) == 'S' and \
+                self.ev(e.right, st) == 'S' else 'R'
+        return 'R'
+
+    def raises(self, node, st):
+        return []
+
+    def note(self, node, st, argvars):
+        for c in ast.walk(node):
+            if isinstance(c, ast.Compare) and len(c.ops) == 1 and \
+                    isinstance(c.ops[0], (ast.Eq, ast.NotEq)):
+                for side in (c.left, c.comparators[0]):
+                    if isinstance(side, ast.Name) and side.id in argvars:
+                        self.uses.append((c, 'compared',
+                                          self.ev(side, st)))
+
+    def branch(self, test, st):
+        self.note(test, st, st.env.get('<argvars>', ()))
+        return [(True, st), (False, st)]
+
+    def effects(self, stmt, st):
+        if isinstance(stmt, ast.Assign) and len(stmt.targets) == 1:
+            t = stmt.targets[0]
+            v = stmt.value
+            if isinstance(t, ast.Tuple) and isinstance(v, ast.Call) and \
+                    isinstance(v.func, ast.Attribute) and \
+                    v.func.attr == 'group' and len(v.args) == len(t.elts):
+                st = st.copy()
+                for x, a in zip(t.elts, v.args):
+                    if isinstance(x, ast.Name):
+                        isargs = isinstance(a, ast.Constant) and \
+                            a.value in ('args', 3)
+                        # the other groups are tokens matched without
+                        # blanks (name, end marker, format)
+                        st.env[x.id] = self.group_tag if isargs else 'S'
+                        if isargs:
+                            st.env['<argvars>'] = tuple(sorted(set(
+                                st.env.get('<argvars>', ())) | {x.id}))
+            elif isinstance(t, ast.Name):
+                st = st.copy()
+                st.env[t.id] = self.ev(v, st)
+        return st
+
+    def on_return(self, node, st):
+        v = node.value
+        if isinstance(v, ast.Tuple) and len(v.elts) == 4:
+            # the Var fallback of the EPFS reader builds "name args"
+            self.uses.append((node, 'returned', self.ev(v.elts[1], st)))
+        return [], st
+
+
+def rule_args_blanks(model):
+    r = RuleResult('C07.R8', 'both tag readers work on the argument text '
+                   'without surrounding blanks (the old-style else test '
+                   'compares it verbatim with the start tag\'s arguments): '
+                   'stripped by the reader itself or, for the SGML '
+                   'syntaxes, by the scanner on every tag path')
+    from . import scan
+    res = scan.scan(model)
+    tagk = {k for k, _ in res.args_vals
+            if k in ('<!--#', '<dtml-', '</dtml-')}
+    if not tagk:
+        raise AnalysisError('scanner: no store of the argument text found')
+    raw = sorted(k for k, kind in res.args_vals
+                 if k in tagk and kind != 'stripped')
+    sc_tag = 'R' if raw else 'S'
+    r.instance(res.fi.where, "d['args'] = ...", 'stripped on every tag '
+               'path' if not raw else f'raw after {raw}')
+    for mshort, qual, gt in (('DT_String', 'String.parseTag', 'R'),
+                             ('DT_HTML', 'HTML.parseTag', sc_tag)):
+        fi = model.func(mshort, qual)
+        dom = _StripDomain(fi, gt)
+        Interp(dom).run(fi.node, _StripS())
+        if not dom.uses:
+            raise AnalysisError(f'{fi.where}: argument text not followed')
+        seen = set()
+        for node, what, tag in dom.uses:
+            k = (id(node), what, tag)
+            if k in seen:
+                continue
+            seen.add(k)
+            r.instance(fi.where, node, f'{what}: ' + (
+                'stripped' if tag == 'S' else 'RAW'))
+            if tag != 'S' and what == 'compared':
+                r.finding(fi.where, node, f'the argument text is {what} '
+                          'with its surrounding blanks in this reader but '
+                          'not in the other: <dtml-else name > (blank '
+                          'before the terminator) is an else continuation '
+                          'in one syntax and a new start tag (ParseError) '
+                          'in the other', node=node, ctx=fi)
+    r.require_floor(6)
+    return r
+
+
 RULES = [rule_overrides, rule_siblings, rule_groups, rule_entity,
-         rule_widths, rule_scanner_twins, rule_epfs_language]
+         rule_widths, rule_scanner_twins, rule_epfs_language,
+         rule_args_blanks]
 EXPLANATION = (
     'Override-set query on the template class hierarchy; comparison of the '
     'normalised decisions (returns, raises, tests) of the two parseTag '
